@@ -475,10 +475,32 @@ func ValidationMatrix() *m.Design {
 			fld("by_name", &m.Attr{Type: &m.Type{Kind: m.Map, Key: m.Prim(m.String), Val: m.UserRef("Percent")}}, false)),
 		Result: obj(fld("slug", m.UserRef("Slug"), false), fld("alias", m.UserRef("Slug"), false)),
 		HTTP:   &m.HTTPEndpoint{Routes: []m.Route{{Verb: "POST", Path: "/v/twice"}}}})
+	// a result type whose smaller view is declared before the default view, alone
+	// and as a collection: the validations of the attributes the small view leaves
+	// out belong to the default view of every element
+	vname := m.Prim(m.String)
+	vname.V = &m.Validation{MinLen: ip(3)}
+	vscore := m.Prim(m.Float64)
+	vscore.V = &m.Validation{ExclMin: fp(0)}
+	vview := func(names ...string) []m.ViewField {
+		var out []m.ViewField
+		for _, n := range names {
+			out = append(out, m.ViewField{Name: n})
+		}
+		return out
+	}
+	vitem := &m.UserType{Name: "VItem", Var: "vvitem", Result: true, Identifier: "application/vnd.validations.item",
+		Attr:  obj(fld("id", m.Prim(m.Int), true), fld("name", vname, true), fld("score", vscore, false)),
+		Views: []*m.View{{Name: "tiny", Fields: vview("id")}, {Name: "default", Fields: vview("id", "name", "score")}}}
+	vitems := &m.UserType{Name: "VItemCollection", Var: "vvitems", Result: true, CollectionOf: "VItem", Attr: arrOf(m.UserRef("VItem")),
+		Views: []*m.View{{Name: "tiny"}, {Name: "default"}}}
+	methods = append(methods,
+		&m.Method{Name: "getitem", Result: m.UserRef("VItem"), HTTP: &m.HTTPEndpoint{Routes: []m.Route{{Verb: "GET", Path: "/v/item"}}}},
+		&m.Method{Name: "listitems", Result: m.UserRef("VItemCollection"), HTTP: &m.HTTPEndpoint{Routes: []m.Route{{Verb: "GET", Path: "/v/items"}}}})
 	return &m.Design{API: m.API{Name: "validations", Title: "Validation matrix"},
-		Types:    []*m.UserType{quantity, code, bag, step, slug, pct},
+		Types:    []*m.UserType{quantity, code, bag, step, slug, pct, vitem, vitems},
 		Services: []*m.Service{{Name: "validations", HasHTTP: true, Methods: methods}},
-		Features: []string{"fixed-design:validation-matrix", "pattern", "format", "same-attribute-name-different-constraints", "validation-in-mapping", "validation-in-mapping-on-alias", "validated-alias-used-twice-in-one-body"}}
+		Features: []string{"fixed-design:validation-matrix", "pattern", "format", "same-attribute-name-different-constraints", "validation-in-mapping", "validation-in-mapping-on-alias", "validated-alias-used-twice-in-one-body", "small-view-declared-before-default-view"}}
 }
 
 // VerbMatrix is a fixed design with one endpoint per HTTP verb (HEAD included:
@@ -934,4 +956,33 @@ func InheritMatrix() *m.Design {
 		Types:    []*m.UserType{base, mid, leaf, ref, res, ext},
 		Services: []*m.Service{{Name: "inherit", HasHTTP: true, Methods: []*m.Method{create, update, inline, byref, show, inlineref}}},
 		Features: []string{"fixed-design:inherit-matrix", "extend", "extend-chain", "extend-inline-payload", "reference", "reference-result-type", "reference-inline-payload"}}
+}
+
+// GetBodyMatrix is a fixed design whose GET and DELETE endpoints leave payload
+// attributes to the request body (goa accepts it; search endpoints are written
+// that way): the whole body object, an explicit Body("attr"), required and
+// optional, next to a POST control.
+func GetBodyMatrix() *m.Design {
+	obj := func(fs ...*m.Field) *m.Attr { return &m.Attr{Type: &m.Type{Kind: m.Object, Fields: fs}} }
+	fld := func(n string, a *m.Attr, req bool) *m.Field { return &m.Field{Name: n, Attr: a, Required: req} }
+	str := func() *m.Attr { return m.Prim(m.String) }
+	arr := func(e *m.Attr) *m.Attr { return &m.Attr{Type: &m.Type{Kind: m.Array, Elem: e}} }
+	ok := func() *m.Attr { return obj(fld("ok", m.Prim(m.Boolean), true)) }
+	payload := func() *m.Attr {
+		return obj(fld("q", str(), true), fld("limit", m.Prim(m.Int), false), fld("terms", arr(str()), true), fld("exact", m.Prim(m.Boolean), false))
+	}
+	var methods []*m.Method
+	for _, v := range []string{"GET", "DELETE", "POST"} {
+		lv := strings.ToLower(v)
+		methods = append(methods,
+			&m.Method{Name: lv + "_search", Payload: payload(), Result: ok(),
+				HTTP: &m.HTTPEndpoint{Routes: []m.Route{{Verb: v, Path: "/getbody/" + lv + "/search"}}, Query: []m.Mapping{{Attr: "q"}, {Attr: "limit"}}}},
+			&m.Method{Name: lv + "_terms", Payload: payload(), Result: ok(),
+				HTTP: &m.HTTPEndpoint{Routes: []m.Route{{Verb: v, Path: "/getbody/" + lv + "/terms"}}, Query: []m.Mapping{{Attr: "q"}, {Attr: "limit"}, {Attr: "exact"}}, Body: &m.Body{Mode: "attr", Attr: "terms"}}},
+			&m.Method{Name: lv + "_filters", Payload: obj(fld("q", str(), true), fld("filters", arr(str()), false)), Result: ok(),
+				HTTP: &m.HTTPEndpoint{Routes: []m.Route{{Verb: v, Path: "/getbody/" + lv + "/filters"}}, Query: []m.Mapping{{Attr: "q"}}, Body: &m.Body{Mode: "attr", Attr: "filters"}}})
+	}
+	return &m.Design{API: m.API{Name: "getbody", Title: "GET body matrix"},
+		Services: []*m.Service{{Name: "getbody", HasHTTP: true, Methods: methods}},
+		Features: []string{"fixed-design:get-body-matrix", "body-on-GET-and-DELETE", "explicit-body-attribute"}}
 }
